@@ -149,7 +149,7 @@ func TestC06Held(t *testing.T) {
 				Arg:      rapid.IntRange(0, 200).Draw(t, "arg"),
 				Exit:     rapid.SampledFrom(exits).Draw(t, "exit"),
 				ExitAt:   rapid.IntRange(1, 12).Draw(t, "exitat"),
-				Writer:   rapid.SampledFrom([]string{"", "", "", "open-txn", "hot-journal"}).Draw(t, "writer"),
+				Writer:   rapid.SampledFrom([]string{"", "", "", "open-txn", "hot-journal", "raw-exclusive"}).Draw(t, "writer"),
 			}
 			n := rapid.IntRange(0, 4).Draw(t, "nsides")
 			for i := 0; i < n; i++ {
@@ -234,6 +234,9 @@ func run(r *vt.Run, t vt.TB, s spec) {
 		ok := st.Shared.Type == "read" && (st.Shared.Pid == mypid || (peerHolding && st.Shared.Pid == peer.pid))
 		if peerHolding && st.Shared.Pid == peer.pid {
 			return // F_GETLK reports one holder only; cannot tell about ours
+		}
+		if s.Writer == "raw-exclusive" {
+			return
 		}
 		if s.Writer == "open-txn" && st.Shared.Type == "read" && st.Shared.Pid == env.O.Pid {
 			return // the writer's open transaction holds SHARED as well: same limitation
@@ -357,6 +360,19 @@ func run(r *vt.Run, t vt.TB, s spec) {
 	}
 
 	// ---- what a writer left behind before the call
+	rawHeld := false
+	switch s.Writer {
+	case "raw-exclusive":
+		// another process write-locks the shared range without holding the
+		// pending byte: the call gets PENDING, fails on SHARED and has to give
+		// PENDING back
+		pr, err := peer.call("rawlock", path)
+		if err != nil || pr.Err != "" {
+			r.Harness(t, "raw lock: %v %s", err, pr.Err)
+		}
+		rawHeld = true
+		classes["writer:raw-exclusive"] = true
+	}
 	switch s.Writer {
 	case "open-txn", "hot-journal":
 		if err := env.O.Open("w2", path); err != nil {
@@ -458,6 +474,12 @@ func run(r *vt.Run, t vt.TB, s spec) {
 	returnedInOp := inOp
 	inOp = false
 
+	if rawHeld {
+		peer.call("rawunlock", "")
+		if opErr == nil && pan == nil && s.Exit == "normal" {
+			violation("read-under-foreign-exclusive-lock", "%s succeeds although another process holds a write lock on the shared range", s.Op)
+		}
+	}
 	// ---- after the call
 	// I2: every page read of the operation lies between its lock and unlock
 	locked := false
